@@ -91,6 +91,12 @@ def gen_cases(rng, n, seed):
                 main.append(S(f"g{j}", "gs", rng.choice(ports), uid=uid))
                 main.append(S("", "rec", f"g{j}", uid=uid + 1))
                 uid += 2
+            if k % 3 == 0:
+                # this case selects a GlobalContext on ITS thread for its whole wiring and run (and keeps it selected for a while):
+                # the state it selected must stay invisible to the cases running on the other threads
+                c.opts["gctx"] = rng.randint(1000, 9000)
+                c.opts["busy"] = rng.choice([20000, 100000])
+                c.meta["selects_context"] = 1
         c.opts["light"] = 0
         cases.append(c)
     return cases
@@ -167,6 +173,7 @@ def main(tier, seed, replay):
     counters["global_state_reads"] = sum(t.count("\nu.gs ") for t in ref.values())
     counters["captured_error_values"] = sum(t.count("\nu.err ") for t in ref.values())
     counters["polymorphic_values_compared"] = sum(t.count("\nPOLY ") for t in ref.values())
+    counters["cases_selecting_a_global_context"] = sum(1 for c in cases if c.meta.get("selects_context"))
 
     for c in cases:
         if c.meta.get("rerecord") and c.name in ref:
